@@ -1,7 +1,8 @@
 (* Properties/C20.v — The API client addresses the right resource, once.
    Only statements closed by [exact]; the proofs live in Proofs/Client*.v.  All statements are over
    Src.SrcClient.client_ops, the operation table regenerated from cmd/esc/cli/client/{client,retry}.go on every run. *)
-From Verif Require Import Base.Bytes Model.Client Src.SrcClient Proofs.ClientPath Proofs.ClientAddr Proofs.ClientRetry.
+From Verif Require Import Base.Bytes Model.Client Src.SrcClient Proofs.ClientPath Proofs.ClientAddr Proofs.ClientRetry
+  Proofs.ClientCross.
 
 (* ---- side conditions on the extracted facts, discharged by computation -----------------------------------
    every template is "/"-separated literal segments (valid names) and %v/%s holes, with as many holes as
@@ -37,6 +38,54 @@ Theorem C20_path_injective : forall f, In f client_ops -> forall a a' n n',
   /\ query_string (of_query f) (query_values f a n) = query_string (of_query f) (query_values f a' n').
 Proof. exact (t_path_injective C20_src_table_wf). Qed.
 
+(* the WHOLE request of an operation with valid names - verb, target, credentials, tag header, and the leaves of the
+   JSON body (string leaves; the revision numbers and preserveHistory as decimal / "true").  The names an operation
+   carries in its body (CreateEnvironment* project and name, the Clone destination, tag names and values, the
+   revision a tag points to) are therefore part of what the theorems below identify.  Correspondence-only: the
+   JSON text itself (encoding/json escaping; invalid UTF-8 in a body string is replaced by U+FFFD). *)
+Theorem C20_request_identity : forall f, In f client_ops -> forall token a n, names_ok f a = true ->
+  build_request f token a n
+  = Some (mk_req (of_verb f)
+                 (op_path f (effective_args f a) (flag_of f n) +++ query_string (of_query f) (query_values f a n))
+                 (auth_value token)
+                 (if header_is etag_header "ETag" then tag_value f a else "")
+                 (if header_is etag_header "If-Match" then tag_value f a else "")
+                 (body_fields f a n)).
+Proof. exact (request_identity C20_src_table_wf). Qed.
+
+(* per operation: equal (target, body) => every parameter the path OR the body mentions is equal (two different
+   destination projects / environment names / tag names never give the same request) *)
+Theorem C20_request_injective : forall f, In f client_ops -> forall a a' n n',
+  names_ok f a = true -> names_ok f a' = true ->
+  request_target f a n = request_target f a' n' -> body_fields f a n = body_fields f a' n' ->
+  (forall i, In (HParam i) (of_holes f) -> nth i (effective_args f a) "" = nth i (effective_args f a') "")
+  /\ (of_flag_suffix f <> "" -> flag_of f n = flag_of f n')
+  /\ query_string (of_query f) (query_values f a n) = query_string (of_query f) (query_values f a' n')
+  /\ (forall i, In i (body_params f) -> nth i a "" = nth i a' "")
+  /\ body_num f n = body_num f n'.
+Proof. exact (request_injective C20_src_table_wf). Qed.
+
+(* ---- addressing ACROSS operations ------------------------------------------------------------------------
+   [op_route] tags every path segment as a literal route word of the template (TLit) or as a substituted name
+   (TName).  Full statement: two operations with the same verb and the same request target have the same route, i.e.
+   address the same resource (GetEnvironment without version = EnvironmentExists, GetRevisionNumber =
+   GetEnvironmentRevisionTag, the *WithProject delegations).  REFUTED by the faithful model and on the real client
+   (known finding C20-route-words): names are valid path segments, but the REST routes reuse segments as both words
+   and names - GetEnvironment(o,p,e, version "tags", decrypt) and GetEnvironmentRevisionTag(o,p,e,"decrypt") are both
+   GET /api/esc/environments/o/p/e/versions/tags/decrypt. *)
+Theorem C20_target_injective_across_ops_refuted : ~ across_ops_full_statement.
+Proof. exact across_ops_refuted. Qed.
+
+(* ... and PROVED outside the decidable class [reserved_names]: no name or version is one of the route words read
+   from the operation table ([route_words]: every literal segment of every template and suffix) *)
+Theorem C20_target_injective_across_ops_partial : forall f f', In f client_ops -> In f' client_ops ->
+  forall a a' n n', names_ok f a = true -> names_ok f' a' = true ->
+  reserved_names f a = false -> reserved_names f' a' = false ->
+  request_target f a n = request_target f' a' n' ->
+  op_route f a n = op_route f' a' n'
+  /\ query_string (of_query f) (query_values f a n) = query_string (of_query f') (query_values f' a' n').
+Proof. exact (across_ops_partial C20_src_table_wf). Qed.
+
 (* every request of a call has the operation's method and target, the access token, and the revision tag of a
    conditional update *)
 Theorem C20_carries_token_and_tag : forall f, In f client_ops -> forall token a n env r,
@@ -71,11 +120,49 @@ Theorem C20_non_get_sent_once : forall f, In f client_ops -> of_verb f <> "GET" 
 Proof. exact (t_non_get_once C20_src_table_wf). Qed.
 
 (* any operation, any server: at most max_retry_count tries; at most 2*max-1 requests reach the server (a GET
-   that dies on a reused connection is replayed once by net/http) *)
+   that dies on a reused connection is replayed once by net/http).  ASSUMPTION of this bound, explicit in the model:
+   the FIRST request of the call travels on a fresh connection ([do_with_retry] starts the loop with reused = false;
+   every call of the correspondence runs against its own new server).  For a call whose first connection was kept
+   alive by an earlier operation of the same client the bound is 2*max: [C20_get_bounded_any_connection]. *)
 Theorem C20_get_bounded : forall f token a n (env : nat -> reply),
   (co_attempts (run_call_env f token a n env) <= Nat.max 1 (N.to_nat max_retry_count))%nat
   /\ (length (co_requests (run_call_env f token a n env)) <= 2 * Nat.max 1 (N.to_nat max_retry_count) - 1)%nat.
 Proof. exact attempts_bounded. Qed.
+
+(* the retry loop from either connection state *)
+Theorem C20_get_bounded_any_connection : forall fuel max replay reused (env : nat -> reply) r att srv,
+  retry_loop fuel max 0 0 replay reused env = LDone r att srv ->
+  (att <= Nat.max 1 max)%nat /\ (srv <= 2 * Nat.max 1 max - (if reused then 0 else 1))%nat.
+Proof. exact retry_loop_any_connection. Qed.
+
+(* the two branches of the model that report ZERO requests without having run the loop are unreachable, so the
+   bounds above are not satisfied vacuously: the loop's fuel always suffices (any policy, verb, server), and for
+   the operations of the table no policy is unknown to shouldRetry (the contract.Failf branch) *)
+Theorem C20_model_never_out_of_fuel : forall policy verb (env : nat -> reply),
+  do_with_retry policy verb env <> Some LOutOfFuel.
+Proof. exact do_with_retry_no_oof. Qed.
+
+Theorem C20_model_never_panics : forall f, In f client_ops -> forall token a n (env : nat -> reply),
+  do_with_retry (policy_of f) (of_verb f) env <> None
+  /\ co_result (run_call_env f token a n env) <> RPanic.
+Proof.
+  exact (fun f Hin token a n env =>
+    let HR := in_table_ok _ f (proj1 (proj2 (proj2 (table_ok_parts C20_src_table_wf)))) Hin in
+    conj (do_with_retry_no_panic f env HR) (run_call_no_panic f token a n env HR)).
+Qed.
+
+(* every call is one of: answered locally / request not buildable (no request at all), or exactly the loop's result *)
+Theorem C20_call_is_loop_result : forall f, In f client_ops -> forall token a n (env : nat -> reply),
+  (exists r, (local_revision f a = Some r \/ (local_revision f a = None /\ build_request f token a n = None
+                                                /\ r = RErr "badreq" 0))
+             /\ run_call_env f token a n env = mk_obs [] 0 r)
+  \/ (exists rq r att srv, local_revision f a = None /\ build_request f token a n = Some rq
+        /\ do_with_retry (policy_of f) (of_verb f) env = Some (LDone r att srv)
+        /\ run_call_env f token a n env = mk_obs (repeat rq srv) att (http_result f token r)).
+Proof.
+  exact (fun f Hin token a n env =>
+    run_call_total f token a n env (in_table_ok _ f (proj1 (proj2 (proj2 (table_ok_parts C20_src_table_wf)))) Hin)).
+Qed.
 
 (* a GET whose first k < max replies fail (5xx or connection error) is retried until reply k, which decides the
    result; the server has then seen exactly k+1 requests *)
@@ -88,22 +175,32 @@ Theorem C20_get_retries_until_success : forall f, In f client_ops -> of_verb f =
 Proof. exact (t_get_retries C20_src_table_wf). Qed.
 
 (* ---- diagnostics ------------------------------------------------------------------------------------------ *)
-(* The unqualified statement is refuted by the faithful model: the methods test the "code" field of the BODY
+(* Hypothesis of both statements, not part of the known class: [diag_applicable] - the status is not 429 and not
+   (401 on a client without a token); httpCall answers those before any body is decoded
+   ([C20_diagnostics_intercepted]).
+   The unqualified statement is refuted by the faithful model: the methods test the "code" field of the BODY
    (== 400), not the HTTP status; a 4xx reply with diagnostics whose body code is absent or differs is returned
    as a failure (witness: PATCH -> 400 {"message":..,"diagnostics":[d]} without "code"). *)
 Theorem C20_diagnostics_full_refuted : ~ diagnostics_full_statement.
 Proof. exact diagnostics_full_refuted. Qed.
 
-(* outside the decidable class kf_diag_code (body code <> 400, or status 429, or 401 without a token) a 4xx
-   reply with diagnostics is returned as diagnostics, after exactly one request *)
+(* outside the decidable class kf_diag_code (EXACTLY: the body code is absent or differs from 400) a 4xx reply
+   with diagnostics is returned as diagnostics, after exactly one request *)
 Theorem C20_diagnostics_partial : forall f, In f client_ops -> of_err_resp f = true ->
   forall token a n (env : nat -> reply) s code nd etag rev,
   names_ok f a = true -> local_revision f a = None ->
   env 0%nat = RpResp s (BJson code nd) etag rev -> 400 <= s -> s <= 499 -> nd <> 0%nat ->
-  kf_diag_code s code token = false ->
+  diag_applicable s token = true -> kf_diag_code code = false ->
   co_result (run_call_env f token a n env) = RDiags nd
   /\ length (co_requests (run_call_env f token a n env)) = 1%nat.
 Proof. exact (t_diagnostics C20_src_table_wf). Qed.
+
+(* the replies excluded by [diag_applicable] are the generic "login required" / "rate limit" failures, whatever
+   their body *)
+Theorem C20_diagnostics_intercepted : forall f token s b etag rev, diag_applicable s token = false ->
+  http_result f token (RpResp s b etag rev) = RErr "login" 0
+  \/ http_result f token (RpResp s b etag rev) = RErr "ratelimit" 0.
+Proof. exact intercepted_result. Qed.
 
 (* ---- non-vacuity and observations (computed on the extracted table) ------------------------------------------ *)
 Example C20_example_values :
@@ -135,13 +232,45 @@ Example C20_example_get_replay :
   (length (co_requests o), co_attempts o, co_result o) = (7%nat, 4%nat, ROk ["true"]).
 Proof. exact eq_refl. Qed.
 
-(* OBSERVATIONS, not claims.  (1) cross-operation collision: a version named "tags" read with decryption is the
-   request that reads the revision tag "decrypt".  (2) names are not escaped and the path is cleaned: the
-   environment-tag name ".." turns DeleteEnvironmentTag into the DELETE of the environment itself. *)
+(* a request that starts on a connection kept alive by an earlier operation: 8 = 2*max requests reach the server *)
+Example C20_example_get_replay_reused :
+  retry_loop 5 4 0 0 true true
+    (env_of [RpReset; RpResp 503 BEmpty "" None; RpReset; RpResp 503 BEmpty "" None; RpReset; RpResp 503 BEmpty "" None;
+             RpReset] (RpResp 200 BOk "" None))
+  = LDone (RpResp 200 BOk "" None) 4 8.
+Proof. exact eq_refl. Qed.
+
+(* the route words of today's table, two routes, and the class of the cross-operation finding; a body *)
+Example C20_example_routes :
+  route_words = ["api"; "esc"; "environments"; "api"; "esc"; "environments"; "versions"]
+                ++ flat_map op_words client_ops
+  /\ forallb is_route_word ["api"; "user"; "esc"; "environments"; "versions"; "tags"; "open"; "yaml"; "check"; "clone";
+                            "retract"; "decrypt"] = true
+  /\ existsb is_route_word ["default"; "latest"; "stable"; "hooks"; "o"; "p"; "e"] = false
+  /\ op_route (op_named "GetEnvironment") ["o"; "p"; "e"; "tags"] [Some 1%Z]
+     = [TLit "api"; TLit "esc"; TLit "environments"; TName "o"; TName "p"; TName "e"; TLit "versions"; TName "tags";
+        TLit "decrypt"]
+  /\ op_route (op_named "GetEnvironmentRevisionTag") ["o"; "p"; "e"; "decrypt"] []
+     = [TLit "api"; TLit "esc"; TLit "environments"; TName "o"; TName "p"; TName "e"; TLit "versions"; TLit "tags";
+        TName "decrypt"]
+  /\ reserved_names (op_named "GetEnvironment") ["o"; "p"; "e"; "tags"] = true
+  /\ reserved_names (op_named "GetEnvironment") ["my-org"; "proj.1"; "env_a"; "stable"] = false
+  /\ op_route (op_named "GetEnvironment") ["o"; "p"; "e"; ""] [Some 0%Z]
+     = op_route (op_named "EnvironmentExists") ["o"; "p"; "e"] []
+  /\ body_fields (op_named "CloneEnvironment") ["o"; "p"; "e"; "p2"; "e2"] [Some 1%Z]
+     = [("name", "e2"); ("preserveHistory", "true"); ("project", "p2")]
+  /\ body_fields (op_named "CreateEnvironmentRevisionTag") ["o"; "p"; "e"; "stable"] [Some 7%Z]
+     = [("name", "stable"); ("revision", "7")].
+Proof. exact (conj eq_refl (conj eq_refl (conj eq_refl (conj eq_refl (conj eq_refl (conj eq_refl (conj eq_refl (conj eq_refl (conj eq_refl eq_refl))))))))). Qed.
+
+(* OBSERVATIONS.  (1) the second witness of C20-route-words: a project "yaml" with an environment "open", read with
+   decryption, is the request that reads the anonymous open session "decrypt".  (2) names are not escaped and the
+   path is cleaned: the environment-tag name ".." (NOT a valid name) turns DeleteEnvironmentTag into the DELETE of
+   the environment itself. *)
 Example C20_observation_collisions :
-  request_target (op_named "GetEnvironment") ["o"; "p"; "e"; "tags"] [Some 1%Z]
-  = request_target (op_named "GetEnvironmentRevisionTag") ["o"; "p"; "e"; "decrypt"] []
-  /\ of_verb (op_named "GetEnvironment") = of_verb (op_named "GetEnvironmentRevisionTag")
+  request_target (op_named "GetEnvironment") ["o"; "yaml"; "open"; ""] [Some 1%Z]
+  = request_target (op_named "GetAnonymousOpenEnvironment") ["o"; "decrypt"] []
+  /\ of_verb (op_named "GetEnvironment") = of_verb (op_named "GetAnonymousOpenEnvironment")
   /\ request_target (op_named "DeleteEnvironmentTag") ["o"; "p"; "e"; ".."] []
      = request_target (op_named "DeleteEnvironment") ["o"; "p"; "e"] []
   /\ of_verb (op_named "DeleteEnvironmentTag") = of_verb (op_named "DeleteEnvironment").
